@@ -9,22 +9,29 @@ From Goat Require Import Model.Client Model.Server Proofs.ClientBase Proofs.Clie
 Open Scope Z_scope.
 
 Definition bad_env (e : env) : Prop := ehdr e = Some MdBad \/ exists err, final_of e = Some err /\ err <> EEof.
+Definition sendfail (c : nat) (l : list cev) : Prop := exists e, In (EvSendRet c (Some e)) l.
 
+(* an exceptional cause for the end of the stream: the caller's context ended, a SendMsg failed, the connection's
+   read failed, or the call took an undecodable / non-OK final envelope *)
 Definition badc (s : Client.state) (c : nat) (k : call) : Prop :=
-  sctx_done k = true \/ rerr s = true \/ exists e, In e (ctakes c (Client.log s)) /\ bad_env e.
+  ctx_done (k_ctx k) = true \/ sendfail c (Client.log s) \/ rerr s = true \/ exists e, In e (ctakes c (Client.log s)) /\ bad_env e.
 
 Definition EXh (s : Client.state) (c : nat) (k : call) : Prop :=
   k_unary k = false ->
   (running_loop (s_loop k) = true -> cclosed (k_chan k) = true -> badc s c k) /\
   (running_loop (s_loop k) = false -> k_pc k = POpen -> l_rerr k = Some EEof \/ badc s c k) /\
-  (forall e, In (EvRecvRet c (RErr e)) (Client.log s) -> e = EEof \/ e = EUnmarshal \/ badc s c k).
+  (forall e, In (EvRecvRet c (RErr e)) (Client.log s) -> e = EEof \/ e = EUnmarshal \/ badc s c k) /\
+  (s_ctxc k = true -> s_done k = true \/ sendfail c (Client.log s)).
 Definition EX (s : Client.state) : Prop := forall c k, nth_error (calls s) c = Some k -> EXh s c k.
 
+Lemma sendfail_mono c l evs : sendfail c l -> sendfail c (l ++ evs).
+Proof. intros (e & H). exists e. apply in_or_app. left. exact H. Qed.
+
 Lemma badc_mono s s' c k k' evs :
-  Client.log s' = Client.log s ++ evs -> (rerr s = true -> rerr s' = true) -> (sctx_done k = true -> sctx_done k' = true) ->
+  Client.log s' = Client.log s ++ evs -> (rerr s = true -> rerr s' = true) -> (ctx_done (k_ctx k) = true -> ctx_done (k_ctx k') = true) ->
   badc s c k -> badc s' c k'.
 Proof.
-  intros Hl Hr Hc [B | [B | (e & Hin & B)]]; [left; auto | right; left; auto | right; right].
+  intros Hl Hr Hc [B | [B | [B | (e & Hin & B)]]]; [left; auto | right; left; rewrite Hl; apply sendfail_mono; exact B | right; right; left; auto | right; right; right].
   exists e. split; auto. rewrite Hl, ctakes_app. apply in_or_app. left. exact Hin.
 Qed.
 
@@ -34,49 +41,57 @@ Definition quietX (c0 : nat) (evs : list cev) : Prop :=
 Lemma EX_upd s s' c0 k0 k' evs :
   EX s -> calls s' = upd c0 k' (calls s) -> nth_error (calls s) c0 = Some k0 ->
   Client.log s' = Client.log s ++ evs -> (rerr s = true -> rerr s' = true) -> quietX c0 evs ->
-  k_unary k' = k_unary k0 -> (sctx_done k0 = true -> sctx_done k' = true) ->
+  k_unary k' = k_unary k0 -> (ctx_done (k_ctx k0) = true -> ctx_done (k_ctx k') = true) ->
   (running_loop (s_loop k') = true -> cclosed (k_chan k') = true ->
      (running_loop (s_loop k0) = true /\ cclosed (k_chan k0) = true) \/ badc s' c0 k') ->
   (running_loop (s_loop k') = false -> k_pc k' = POpen ->
      (running_loop (s_loop k0) = false /\ k_pc k0 = POpen /\ l_rerr k' = l_rerr k0) \/ l_rerr k' = Some EEof \/ badc s' c0 k' \/
-     (running_loop (s_loop k0) = true /\ cclosed (k_chan k0) = true)) ->
+     (running_loop (s_loop k0) = true /\ cclosed (k_chan k0) = true) \/ (s_ctxc k0 = true /\ s_done k0 = false)) ->
   (forall e, In (EvRecvRet c0 (RErr e)) evs ->
-     e = EEof \/ e = EUnmarshal \/ badc s' c0 k' \/ (running_loop (s_loop k0) = false /\ k_pc k0 = POpen /\ l_rerr k0 = Some e)) ->
+     e = EEof \/ e = EUnmarshal \/ badc s' c0 k' \/ (running_loop (s_loop k0) = false /\ k_pc k0 = POpen /\ l_rerr k0 = Some e) \/
+     (s_ctxc k0 = true /\ s_done k0 = false)) ->
+  (s_ctxc k' = true -> (s_ctxc k0 = true /\ (s_done k0 = true -> s_done k' = true)) \/ s_done k' = true \/ sendfail c0 (Client.log s')) ->
   EX s'.
 Proof.
-  intros HX Hc Hn Hl Hr Hq Hu Hctx HA HB HC c k P Hu'. rewrite Hc in P. destruct (Nat.eq_dec c c0) as [->|Hne].
+  intros HX Hc Hn Hl Hr Hq Hu Hctx HA HB HC HD c k P Hu'. rewrite Hc in P. destruct (Nat.eq_dec c c0) as [->|Hne].
   - rewrite nth_upd_eq in P by (eapply nth_some_lt; eauto). inversion P; subst k. rewrite Hu in Hu'.
-    destruct (HX _ _ Hn Hu') as (A & B & C).
+    destruct (HX _ _ Hn Hu') as (A & B & C & D).
     assert (M : badc s c0 k0 -> badc s' c0 k') by (apply (badc_mono _ _ _ _ _ _ Hl Hr Hctx)).
-    split; [|split].
+    assert (SF : s_ctxc k0 = true -> s_done k0 = false -> badc s' c0 k').
+    { intros X Y. destruct (D X) as [Z | Z]; [congruence|]. right. left. rewrite Hl. apply sendfail_mono. exact Z. }
+    split; [|split; [|split]].
     + intros R Cl. destruct (HA R Cl) as [(R0 & C0) | X]; auto.
-    + intros R Pc. destruct (HB R Pc) as [(R0 & P0 & E) | [X | [X | (R0 & C0)]]]; auto.
+    + intros R Pc. destruct (HB R Pc) as [(R0 & P0 & E) | [X | [X | [(R0 & C0) | (X & Y)]]]]; auto.
       rewrite E. destruct (B R0 P0); auto.
     + intros e Hin. rewrite Hl in Hin. apply in_app_or in Hin. destruct Hin as [Hin|Hin].
       * destruct (C _ Hin) as [X | [X | X]]; auto.
-      * destruct (HC _ Hin) as [X | [X | [X | (R0 & P0 & E)]]]; auto.
+      * destruct (HC _ Hin) as [X | [X | [X | [(R0 & P0 & E) | (X & Y)]]]]; auto.
         destruct (B R0 P0) as [Y | Y]; [left; congruence | auto].
-  - rewrite nth_upd_neq in P by auto. destruct (HX _ _ P Hu') as (A & B & C).
+    + intros X. destruct (HD X) as [(X0 & Dn) | [Y | Y]]; auto.
+      destruct (D X0) as [Z | Z]; [left; auto | right; rewrite Hl; apply sendfail_mono; exact Z].
+  - rewrite nth_upd_neq in P by auto. destruct (HX _ _ P Hu') as (A & B & C & D).
     assert (M : badc s c k -> badc s' c k) by (apply (badc_mono _ _ _ _ _ _ Hl Hr); auto).
     destruct (Hq c Hne) as (Q1 & Q2).
-    split; [|split].
+    split; [|split; [|split]].
     + intros R Cl. auto.
     + intros R Pc. destruct (B R Pc); auto.
     + intros e Hin. rewrite Hl in Hin. apply in_app_or in Hin. destruct Hin as [Hin|Hin]; [|exfalso; eapply Q2; eauto].
       destruct (C _ Hin) as [X | [X | X]]; auto.
+    + intros X. destruct (D X) as [Z | Z]; [left; auto | right; rewrite Hl; apply sendfail_mono; exact Z].
 Qed.
 
 Lemma EX_same s s' evs :
   EX s -> calls s' = calls s -> Client.log s' = Client.log s ++ evs -> (rerr s = true -> rerr s' = true) ->
   (forall c, ctakes c evs = [] /\ forall e, ~ In (EvRecvRet c (RErr e)) evs) -> EX s'.
 Proof.
-  intros HX Hc Hl Hr Hq c k P Hu'. rewrite Hc in P. destruct (HX _ _ P Hu') as (A & B & C).
+  intros HX Hc Hl Hr Hq c k P Hu'. rewrite Hc in P. destruct (HX _ _ P Hu') as (A & B & C & D).
   assert (M : badc s c k -> badc s' c k) by (apply (badc_mono _ _ _ _ _ _ Hl Hr); auto).
-  destruct (Hq c) as (Q1 & Q2). split; [|split].
+  destruct (Hq c) as (Q1 & Q2). split; [|split; [|split]].
   - intros R Cl. auto.
   - intros R Pc. destruct (B R Pc); auto.
   - intros e Hin. rewrite Hl in Hin. apply in_app_or in Hin. destruct Hin as [Hin|Hin]; [|exfalso; eapply Q2; eauto].
     destruct (C _ Hin) as [X | [X | X]]; auto.
+  - intros X. destruct (D X) as [Z | Z]; [left; auto | right; rewrite Hl; apply sendfail_mono; exact Z].
 Qed.
 
 Ltac noret_tac := let e := fresh in let X := fresh in
@@ -88,15 +103,15 @@ Ltac quietX_ret_tac := let c := fresh in let hZ := fresh in let e := fresh in le
   intros c hZ; split; [reflexivity | intros e X; simpl in X; destruct X as [X|[]]; inversion X; congruence].
 Ltac quietA_tac := let c := fresh in intros c; split; [reflexivity | noret_tac].
 
-(* the side conditions of EX_upd for a step that leaves loop, channel state, pc and loop error alone *)
 Ltac rerr_tac := csimpl; intros; first [assumption | congruence].
 Ltac sl_rw := csimpl; repeat match goal with E : s_loop _ = _ |- _ => rewrite E in * end; csimpl.
 Ltac exn1 := csimpl; reflexivity.
-Ltac exn2 := csimpl; let hZ := fresh in intros hZ; first [exact hZ | reflexivity | csimpl; rewrite ?hZ, ?orb_true_r; reflexivity].
+Ltac exn2 := csimpl; let hZ := fresh in intros hZ; first [exact hZ | reflexivity].
 Ltac exn3 := sl_rw; let h1 := fresh in let h2 := fresh in intros h1 h2; first [discriminate h1 | discriminate h2 | left; split; first [assumption | reflexivity]].
 Ltac exn4 := sl_rw; let h1 := fresh in let h2 := fresh in intros h1 h2;
   first [discriminate h1 | discriminate h2 | left; split; [first [exact h1 | reflexivity] | split; [exact h2 | reflexivity]]].
 Ltac exn5 := csimpl; let e := fresh in let X := fresh in intros e X; exfalso; revert e X; noret_tac.
+Ltac exn6 := csimpl; let h1 := fresh in intros h1; first [discriminate h1 | left; split; [exact h1 | let d := fresh in intros d; exact d]].
 
 Ltac exu HX c k0 evs :=
   eapply (EX_upd _ _ c k0 _ evs);
@@ -110,9 +125,9 @@ Ltac EX_done HX :=
   first [ eapply (EX_same _ _ []); [exact HX | reflexivity | csimpl; rewrite app_nil_r; reflexivity | rerr_tac | quietA_tac]
         | eapply EX_same; [exact HX | reflexivity | csimpl; rewrite <- ?app_assoc; reflexivity | rerr_tac | quietA_tac]
         | match goal with E : nth_error (calls ?s) ?c = Some ?k |- EX _ =>
-            first [ exu HX c k (@nil cev); [exn3 | exn4 | exn5]
+            first [ exu HX c k (@nil cev); [exn3 | exn4 | exn5 | exn6]
                   | eapply (EX_upd s _ c k); [exact HX | csimpl; reflexivity | exact E | csimpl; rewrite <- ?app_assoc; reflexivity
-                                             | rerr_tac | quietX_tac | exn1 | exn2 | exn3 | exn4 | exn5 ] ]
+                                             | rerr_tac | quietX_tac | exn1 | exn2 | exn3 | exn4 | exn5 | exn6 ] ]
           end ].
 
 Lemma EX_unary s s' c0 k0 k' evs :
@@ -121,18 +136,25 @@ Lemma EX_unary s s' c0 k0 k' evs :
 Proof.
   intros HX Hc Hn Hl Hr Hq Hu c k P Hu'. rewrite Hc in P. destruct (Nat.eq_dec c c0) as [->|Hne].
   - rewrite nth_upd_eq in P by (eapply nth_some_lt; eauto). inversion P; subst k. congruence.
-  - rewrite nth_upd_neq in P by auto. destruct (HX _ _ P Hu') as (A & B & C).
+  - rewrite nth_upd_neq in P by auto. destruct (HX _ _ P Hu') as (A & B & C & D).
     assert (M : badc s c k -> badc s' c k) by (apply (badc_mono _ _ _ _ _ _ Hl Hr); auto).
     destruct (Hq c Hne) as (Q1 & Q2).
-    split; [|split].
+    split; [|split; [|split]].
     + intros R Cl. auto.
     + intros R Pc. destruct (B R Pc); auto.
     + intros e Hin. rewrite Hl in Hin. apply in_app_or in Hin. destruct Hin as [Hin|Hin]; [|exfalso; eapply Q2; eauto].
       destruct (C _ Hin) as [X | [X | X]]; auto.
+    + intros X. destruct (D X) as [Z | Z]; [left; auto | right; rewrite Hl; apply sendfail_mono; exact Z].
 Qed.
 
 Lemma in_ctakes_snoc c e l : In e (ctakes c (l ++ [EvTake c e])).
 Proof. rewrite ctakes_app. apply in_or_app. right. simpl. rewrite Nat.eqb_refl. left. reflexivity. Qed.
+
+Lemma running_not_done k : kinv k -> running_loop (s_loop k) = true -> s_done k = false.
+Proof.
+  intros K R. destruct (s_done k) eqn:D; auto. destruct (ki_done_dead _ K D) as (A & _).
+  unfold loop_alive in A. destruct (s_loop k); simpl in *; congruence.
+Qed.
 
 Lemma EX_int s r s' : cinv s -> sinv s -> linv s ->
   (forall c k, nth_error (calls s) c = Some k -> s_done k = true -> s_rerr k = l_rerr k) ->
@@ -143,8 +165,11 @@ Proof.
   - unfold r_rl_read in H. open_rule H; try (EX_done HX).
     intros c k P Hu. assert (B : badc {| counter := counter s; rerr := true; rl := RLDead; Client.inbox := []; Client.inbox_failed := true;
                                          Client.wfail := Client.wfail s; calls := close_all (calls s); Client.log := Client.log s |} c k)
-      by (right; left; reflexivity).
-    split; [|split]; auto.
+      by (right; right; left; reflexivity).
+    split; [|split; [|split]]; auto.
+    csimpl. unfold close_all in P. rewrite nth_error_map in P. destruct (nth_error (calls s) c) as [k1|] eqn:Ek1; [|discriminate]. simpl in P.
+    assert (Q : s_ctxc k = s_ctxc k1 /\ s_done k = s_done k1 /\ k_unary k = k_unary k1) by (destruct (k_reg k1); inversion P; subst k; auto).
+    destruct Q as (Q1 & Q2 & Q3). rewrite Q1, Q2. rewrite Q3 in Hu. destruct (HX _ _ Ek1 Hu) as (_ & _ & _ & D). exact D.
   - simpl in Hin.
     repeat (destruct Hin as [<-|Hin];
             [ unfold r_check, r_reg, r_wait, r_wait_ctx, r_unreg, r_loop_read, r_loop_read_ctx, r_loop_hand,
@@ -157,48 +182,59 @@ Proof.
                                   | csimpl; destruct (k_unary c0); [reflexivity | discriminate K]].
     + (* r_unreg, unary *)
       assert (X : s_loop c0 = LDead) by (apply (kinv_dead _ (cinv_call _ _ _ HI E)); rewrite E0; discriminate).
-      destruct (k_reg c0); (exu HX c c0 [EvUnaryRet c r]; [sl_rw; intros hZ; discriminate hZ | exn4 | exn5]).
+      destruct (k_reg c0); (exu HX c c0 [EvUnaryRet c r]; [sl_rw; intros hZ; discriminate hZ | exn4 | exn5 | exn6]).
     + assert (X : s_loop c0 = LDead) by (apply (kinv_dead _ (cinv_call _ _ _ HI E)); rewrite E0; discriminate).
-      destruct (k_reg c0); (exu HX c c0 [EvOpenRet c (Some e)]; [sl_rw; intros hZ; discriminate hZ | exn4 | exn5]).
+      destruct (k_reg c0); (exu HX c c0 [EvOpenRet c (Some e)]; [sl_rw; intros hZ; discriminate hZ | exn4 | exn5 | exn6]).
     + (* r_loop_read: undecodable metadata *)
       assert (B : bad_env e) by (left; destruct (s_latch c0); [discriminate|]; destruct (ehdr e) as [[|]|]; try discriminate; reflexivity).
-      exu HX c c0 [EvTake c e]; [exn3 | | exn5].
-      intros _ _. right. right. left. right. right. exists e. split; [csimpl; apply in_ctakes_snoc | exact B].
+      exu HX c c0 [EvTake c e]; [exn3 | | exn5 | exn6].
+      intros _ _. right. right. left. right. right. right. exists e. split; [csimpl; apply in_ctakes_snoc | exact B].
     + (* r_loop_read: a final envelope *)
-      exu HX c c0 [EvTake c e]; [exn3 | | exn5].
-      intros _ _. csimpl. destruct c1; try (right; right; left; right; right; exists e; split; [csimpl; apply in_ctakes_snoc | right; eexists; split; [exact E3 | discriminate]]).
+      exu HX c c0 [EvTake c e]; [exn3 | | exn5 | exn6].
+      intros _ _. csimpl. destruct c1; try (right; right; left; right; right; right; exists e; split; [csimpl; apply in_ctakes_snoc | right; eexists; split; [exact E3 | discriminate]]).
       right. left. reflexivity.
-    + exu HX c c0 [EvTake c e]; [exn3 | exn4 | exn5].
-    + exu HX c c0 [EvTake c e]; [exn3 | exn4 | exn5].
+    + exu HX c c0 [EvTake c e]; [exn3 | exn4 | exn5 | exn6].
+    + exu HX c c0 [EvTake c e]; [exn3 | exn4 | exn5 | exn6].
     + (* r_loop_read: closed and empty *)
-      exu HX c c0 (@nil cev); [exn3 | | exn5].
-      intros _ _. right. right. right. rewrite E0. split; [reflexivity | exact E2].
+      exu HX c c0 (@nil cev); [exn3 | | exn5 | exn6].
+      intros _ _. right. right. right. left. rewrite E0. split; [reflexivity | exact E2].
     + (* r_loop_read_ctx *)
-      exu HX c c0 (@nil cev); [exn3 | | exn5]. intros _ _. right. right. left. left. csimpl. exact E1.
+      exu HX c c0 (@nil cev); [exn3 | | exn5 | exn6]. intros _ _.
+      unfold sctx_done in E1. destruct (s_ctxc c0) eqn:Ec.
+      * right. right. right. right. split; [reflexivity|]. apply running_not_done; [exact (cinv_call _ _ _ HI E) | rewrite E0; reflexivity].
+      * right. right. left. left. csimpl. exact E1.
     + (* r_loop_hand *)
       destruct (b <? 0).
-      * exu HX c c0 [EvRecvRet c (RErr EUnmarshal)]; [exn3 | exn4 | ].
+      * exu HX c c0 [EvRecvRet c (RErr EUnmarshal)]; [exn3 | exn4 | | exn6].
         intros e0 X. destruct X as [X|[]]; inversion X. right. left. reflexivity.
-      * exu HX c c0 [EvRecvRet c (RMsg b)]; [exn3 | exn4 | exn5].
+      * exu HX c c0 [EvRecvRet c (RMsg b)]; [exn3 | exn4 | exn5 | exn6].
     + (* r_loop_hand_ctx *)
-      exu HX c c0 (@nil cev); [exn3 | | exn5]. intros _ _. right. right. left. left. csimpl. exact E1.
+      exu HX c c0 (@nil cev); [exn3 | | exn5 | exn6]. intros _ _.
+      unfold sctx_done in E1. destruct (s_ctxc c0) eqn:Ec.
+      * right. right. right. right. split; [reflexivity|]. apply running_not_done; [exact (cinv_call _ _ _ HI E) | rewrite E0; reflexivity].
+      * right. right. left. left. csimpl. exact E1.
+    + (* r_loop_unreg: the terminal state is published together with the cancellation of the stream context *)
+      exu HX c c0 (@nil cev); [exn3 | exn4 | exn5 | ]. intros _. right. left. reflexivity.
     + (* r_recv: the terminal state *)
       destruct (ki_done_dead _ (cinv_call _ _ _ HI E) E2) as (Ka & _ & Kp).
       assert (Kr : running_loop (s_loop c0) = false) by (unfold loop_alive in Ka; destruct (s_loop c0); try discriminate Ka; reflexivity).
-      exu HX c c0 [EvRecvRet c (recv_final c0)]; [exn3 | exn4 | ].
+      exu HX c c0 [EvRecvRet c (recv_final c0)]; [exn3 | exn4 | | exn6].
       intros e0 X. destruct X as [X|[]]. unfold recv_final in X. rewrite (HD _ _ E E2) in X.
-      destruct (l_rerr c0) eqn:El; inversion X; subst; [right; right; right; auto | left; reflexivity].
+      destruct (l_rerr c0) eqn:El; inversion X; subst; [right; right; right; left; auto | left; reflexivity].
     + destruct (ki_done_dead _ (cinv_call _ _ _ HI E) E2) as (Ka & _ & Kp).
       assert (Kr : running_loop (s_loop c0) = false) by (unfold loop_alive in Ka; destruct (s_loop c0); try discriminate Ka; reflexivity).
-      exu HX c c0 [EvRecvRet c (recv_final c0)]; [exn3 | exn4 | ].
+      exu HX c c0 [EvRecvRet c (recv_final c0)]; [exn3 | exn4 | | exn6].
       intros e0 X. destruct X as [X|[]]. unfold recv_final in X. rewrite (HD _ _ E E2) in X.
-      destruct (l_rerr c0) eqn:El; inversion X; subst; [right; right; right; auto | left; reflexivity].
+      destruct (l_rerr c0) eqn:El; inversion X; subst; [right; right; right; left; auto | left; reflexivity].
     + (* r_recv: the context *)
-      exu HX c c0 [EvRecvRet c (RErr (ctx_status c0))]; [exn3 | exn4 | ].
-      intros e0 X. right. right. left. left. csimpl. exact E3.
+      exu HX c c0 [EvRecvRet c (RErr (ctx_status c0))]; [exn3 | exn4 | | exn6].
+      intros e0 X. unfold sctx_done in E3. destruct (s_ctxc c0) eqn:Ec.
+      * right. right. right. right. split; [reflexivity | exact E2].
+      * right. right. left. left. csimpl. exact E3.
     + (* r_send: teardown *)
-      match goal with |- EX (Client.add_log _ ?evs) => exu HX c c0 evs; [ | exn4 | exn5] end.
-      intros _ _. right. left. unfold sctx_done. simpl. rewrite ?orb_true_r. reflexivity.
+      match goal with |- EX (Client.add_log _ ?evs) => exu HX c c0 evs; [ | exn4 | exn5 | ] end.
+      * intros _ _. right. right. left. eexists. csimpl. apply in_or_app. right. left. reflexivity.
+      * intros _. right. right. eexists. csimpl. apply in_or_app. right. left. reflexivity.
 Qed.
 
 (* ---------- RecvMsg returns errors only on open streams ---------- *)
@@ -270,22 +306,24 @@ Qed.
 
 Lemma EX_with_call s c g :
   EX s -> (forall k k', g k = Some k' -> k_unary k' = k_unary k /\ s_loop k' = s_loop k /\ k_chan k' = k_chan k /\ k_pc k' = k_pc k /\
-                                         l_rerr k' = l_rerr k /\ (sctx_done k = true -> sctx_done k' = true)) -> EX (with_call s c g).
+                                         l_rerr k' = l_rerr k /\ (ctx_done (k_ctx k) = true -> ctx_done (k_ctx k') = true) /\
+                                         s_ctxc k' = s_ctxc k /\ s_done k' = s_done k) -> EX (with_call s c g).
 Proof.
   intros HX Hg. unfold with_call. destruct (nth_error (calls s) c) as [k|] eqn:E; [|exact HX].
-  destruct (g k) as [k'|] eqn:G; [|exact HX]. destruct (Hg _ _ G) as (A & B & C & D & F & M).
-  eapply (EX_upd s _ c k k' []); [exact HX | reflexivity | exact E | simpl; rewrite app_nil_r; reflexivity | auto | quietX_tac | exact A | exact M | | | ].
+  destruct (g k) as [k'|] eqn:G; [|exact HX]. destruct (Hg _ _ G) as (A & B & C & D & F & M & N1 & N2).
+  eapply (EX_upd s _ c k k' []); [exact HX | reflexivity | exact E | simpl; rewrite app_nil_r; reflexivity | auto | quietX_tac | exact A | exact M | | | | ].
   - rewrite B, C. intros; left; auto.
   - rewrite B, D, F. intros; left; auto.
   - intros e [].
+  - rewrite N1, N2. intros; left; auto.
 Qed.
 
-Lemma EX_new s k0 : ED s -> EX s -> s_loop k0 = LDead -> k_pc k0 <> POpen ->
+Lemma EX_new s k0 : ED s -> EX s -> s_loop k0 = LDead -> k_pc k0 <> POpen -> s_ctxc k0 = false ->
   EX (Client.mkState (counter s) (rerr s) (rl s) (Client.inbox s) (Client.inbox_failed s) (Client.wfail s) (calls s ++ [k0]) (Client.log s)).
 Proof.
-  intros HE HX Hd Hp c k P Hu. csimpl. destruct (nth_app_cases _ _ _ _ P) as [(P' & _) | (-> & ->)].
-  - destruct (HX _ _ P' Hu) as (A & B & C). split; [|split]; auto.
-  - split; [rewrite Hd; discriminate|]. split; [intros _ X; contradiction|].
+  intros HE HX Hd Hp Hc0 c k P Hu. csimpl. destruct (nth_app_cases _ _ _ _ P) as [(P' & _) | (-> & ->)].
+  - destruct (HX _ _ P' Hu) as (A & B & C & D). split; [|split; [|split]]; auto.
+  - split; [rewrite Hd; discriminate|]. split; [intros _ X; contradiction|]. split; [|intros X; congruence].
     intros e Hin. exfalso. destruct (HE _ _ Hin) as (k1 & Hk1 & _). apply nth_some_lt in Hk1. lia.
 Qed.
 
@@ -301,9 +339,7 @@ Proof.
   - apply EX_new; auto; discriminate.
   - destruct (nth_error (calls s) c) as [k|] eqn:E; [|exact HX].
     destruct (k_pc k) eqn:P; try exact HX.
-    exu HX c k (@nil cev); [exn3 | | exn5]. csimpl. intros _ X. discriminate X.
-  - intros _. unfold sctx_done, set_ctx; simpl. apply orb_true_r.
-  - intros _. unfold sctx_done, set_ctx; simpl. apply orb_true_r.
+    exu HX c k (@nil cev); [exn3 | | exn5 | exn6]. csimpl. intros _ X. discriminate X.
 Qed.
 
 Lemma ED_ext s a : ED s -> ED (Client.ext s a).
